@@ -27,8 +27,8 @@ CHECKS = {
     ),
     "C02": dict(
         title="Balance: debits need the holder's or the Alphabet's authorisation",
-        quick=dict(groups=[G("stateful", "^TestC02Stateful$", 300, 7), E("matrix", "^TestC02Matrix$"), E("abi-sweep", "^TestC02ABISweep$", 6)]),
-        thorough=dict(groups=[G("stateful", "^TestC02Stateful$", 5000, 15), E("matrix", "^TestC02Matrix$"), E("abi-sweep", "^TestC02ABISweep$", 12)]),
+        quick=dict(groups=[G("stateful", "^TestC02Stateful$", 300, 7), E("matrix", "^TestC02Matrix$"), E("abi-sweep", "^TestC02ABISweep$", 6), E("scopes", "^TestC02Scopes$")]),
+        thorough=dict(groups=[G("stateful", "^TestC02Stateful$", 5000, 15), E("matrix", "^TestC02Matrix$"), E("abi-sweep", "^TestC02ABISweep$", 12), E("scopes", "^TestC02Scopes$")]),
     ),
     "C09": dict(
         title="Balance locks return exactly once at expiry unless burnt",
@@ -42,8 +42,8 @@ CHECKS = {
     ),
     "C07": dict(
         title="Netmap candidates follow the add/update/remove state machine in both lists",
-        quick=dict(groups=[G("stateful", "^TestC07Stateful$", 300, 7), E("matrix", "^TestC07Matrix$")]),
-        thorough=dict(groups=[G("stateful", "^TestC07Stateful$", 5000, 15), E("matrix", "^TestC07Matrix$")]),
+        quick=dict(groups=[G("stateful", "^TestC07Stateful$", 300, 7), E("matrix", "^TestC07Matrix$"), E("scopes", "^TestC07Scopes$")]),
+        thorough=dict(groups=[G("stateful", "^TestC07Stateful$", 5000, 15), E("matrix", "^TestC07Matrix$"), E("scopes", "^TestC07Scopes$")]),
     ),
     "C06": dict(
         title="Netmap tick: growing epoch, atomic publication, subscriber fan-out",
